@@ -3,7 +3,7 @@
    discard_hydrogens is the removal of the hydrogen lines / rows, only_atomic_coords the removal of the single items;
    and for the name functions: a path is decomposed at the last dot of its last component, case-insensitively. *)
 From Coq Require Import List Ascii String ZArith Bool Lia.
-From PV Require Import Base.Sx Base.Text Spec.Hier Model.PdbLex Model.PdbParse Model.CifLex Model.CifParse Model.Names Proofs.C15names Proofs.C15filter Proofs.C15first.
+From PV Require Import Base.Sx Base.Text Spec.Hier Model.PdbLex Model.PdbParse Model.CifLex Model.CifParse Model.Names Proofs.C15names Proofs.C15filter Proofs.C15first Proofs.C15cif.
 Import ListNotations.
 
 (* 1. discard_hydrogens, PDB reader model: reading with the option is reading the numbered lines without the hydrogen lines
@@ -72,6 +72,18 @@ Theorem C15_pdb_only_first_model_is_a_prefix : forall dh ao loose lines s, s_sto
   match hit with Some nl => step_line dh true ao loose s' nl | None => s' end.
 Proof. exact pdb_only_first_model_is_a_prefix. Qed.
 
+(* only_first_model in the row loop of the mmCIF reader model: a row of another model than the one settled on stops the loop
+   and leaves the structure as it is; a stopped loop ignores the rows that follow *)
+Theorem C15_cif_row_of_another_model_stops : forall dh hdr s row f element e1,
+  q_stop s = false -> q_first s = Some f -> Z.eqb f (row_model hdr row) = false ->
+  column get_text' hdr row "atom_site.type_symbol" = (Some element, e1) ->
+  (dh && text_eqb element (stext "H"))%bool = false ->
+  let t := atom_row dh true hdr s row in
+  q_stop t = true /\ q_models t = q_models s /\ q_ids t = q_ids s /\ q_first t = q_first s.
+Proof. exact cif_row_of_another_model_stops. Qed.
+Theorem C15_cif_stopped_rows_ignored : forall dh fo hdr rows s, q_stop s = true -> fold_left (atom_row dh fo hdr) rows s = s.
+Proof. exact cif_stopped_rows_ignored. Qed.
+
 Print Assumptions C15_pdb_discard_hydrogens_is_a_filter.
 Print Assumptions C15_cif_discard_hydrogens_is_a_filter.
 Print Assumptions C15_cif_atomic_only_is_a_filter.
@@ -87,3 +99,5 @@ Print Assumptions C15_pdb_first_model_same_before.
 Print Assumptions C15_pdb_second_model_record_stops.
 Print Assumptions C15_pdb_stopped_reader_ignores_rest.
 Print Assumptions C15_pdb_only_first_model_is_a_prefix.
+Print Assumptions C15_cif_row_of_another_model_stops.
+Print Assumptions C15_cif_stopped_rows_ignored.
